@@ -390,11 +390,32 @@ def tiny_unit(kind: str, mid: int, rnd: random.Random) -> t.Tuple[bytes, t.Dict[
     return unit_of(m, rnd, alt=False)
 
 
+def scenario_burst(rec: Recorder, role: str, rnd: random.Random) -> None:
+    """More than a thousand small units in ONE delivery (a 64 KiB socket read full of search entries), as a recorded trace."""
+    rec.new(role, "burst")
+    n = rnd.choice((1100, 1500))
+    units: t.List[t.Tuple[bytes, t.Dict[str, t.Any]]] = []
+    if role == "client":
+        e = rec.call({"op": "send", "k": "searchReq"})
+        rec.drain(None)
+        if e["res"] != "ok":
+            return
+        units = [tiny_unit(rnd.choice(("entry", "entry", "ref")), e["ret"], rnd) for _ in range(n)]
+    else:
+        units = [tiny_unit("extReq", j + 1, rnd) for j in range(n)]
+    rec.stream([u[1] for u in units])
+    stream = b"".join(u[0] for u in units)
+    cut = rnd.choice((len(stream), len(stream) - 3, len(stream) // 2 + 1))
+    rec.recv(stream[:cut])
+    if cut < len(stream):
+        rec.recv(stream[cut:])
+
+
 def burst_checks(rep: C.Report, seed: int) -> None:
-    """More than a thousand small units in ONE delivery (a 64 KiB socket read full of search entries).  Judged here, not by
-    SessionTrace.tla: TLC needs minutes for a single receive event with hundreds of units (measured: 100 units 10 s, 200
-    units 96 s), while the expected outcome needs no model - the stream is well-formed and accepted, so exactly the units
-    sent must come back, in order, as equal values, and the session must stay open."""
+    """The same with 1100 and 3000 units, judged here as well (no model is needed for the expected outcome: the stream is
+    well-formed and accepted, so exactly the units sent must come back, in order, as equal values, and the session must
+    stay open).  Until the intermediates of SessionTrace!Recv were bound once (13.16) this was the only way to judge
+    bursts: TLC needed 96 s for a single delivery of 200 units."""
     rnd = random.Random(seed * 17 + 3)
     for role in ("client", "server"):
         for n in (1100, 3000):
@@ -430,7 +451,7 @@ def burst_checks(rep: C.Report, seed: int) -> None:
                 rep.violation(f"ExactMessages/{role}/burst", f"{role}.receive of {n} units in one call returned different messages", {"role": role, "units": n}, prop="C02")
             if s.state.name != "OPENED":
                 rep.violation(f"StateAfterReceive/{role}/burst", f"{role} is {s.state.name} after a burst of {n} accepted units", {"role": role, "units": n}, prop="C08")
-    rep.add_part("bursts of 1100 / 3000 units in one delivery (judged outside TLC, see strace.burst_checks)", cases=4)
+    rep.add_part("bursts of 1100 / 3000 units in one delivery (judged outside TLC as well, see strace.burst_checks)", cases=4)
 
 
 def scenario_large_then_split(rec: Recorder, role: str, rnd: random.Random) -> None:
@@ -766,6 +787,8 @@ def drive(seed: int, n_traces: int) -> t.List[t.Dict[str, t.Any]]:
             scenario_bulk(rec, role, rnd)
         if j % 40 == 33:
             scenario_large_then_split(rec, role, rnd)
+        if j % 100 == 13:
+            scenario_burst(rec, role, rnd)
         if j % 10 == 3:
             scenario_regcontrol(rec, role, rnd)
         if j % 10 == 8:
